@@ -4,6 +4,7 @@ import (
 	"encoding/json"
 	"fmt"
 	"os"
+	"strconv"
 	"path/filepath"
 	"strings"
 	"time"
@@ -438,8 +439,86 @@ func runC02(r *core.Run) {
 		reported[s2] = true
 		r.Violation(s2, w2, map[string]interface{}{"case": cases[jobs[k].ci], "dialect": jobs[k].d.String(), "way": jobs[k].way})
 	}
+	c02Typed(r)
 	r.Sample(map[string]interface{}{"format": cases[len(cases)/2].Fmt, "table": fmt.Sprint(cases[len(cases)/2].Rows), "expected": cases[len(cases)/2].Exp.K})
 	r.Coverage["traces_validated_against_impl"] = len(jobs)
 	r.Coverage["format_cases"] = len(cases)
 	r.Coverage["exhaustive"] = r.Thorough
+}
+
+
+// c02Typed: cells are not always texts - a query result holds integers, floats, booleans and datetimes.  Each typed
+// value is written in every format (--out) and read back; the text read back must be the text csvq itself shows
+// for the value (its CSV spelling): the format-independent normal form of Formats.tla with the value's canonical
+// text as the cell.
+func c02Typed(r *core.Run) {
+	values := []string{"1", "-7", "0", "9007199254740993", "-9007199254740993", "9223372036854775807", "-9223372036854775807", "1000000000000000001",
+		"2.5", "-0.125", "0.1", "1e20", "123456789.125", "TRUE", "FALSE", "DATETIME('2012-02-03 04:05:06')", "'text'", "NULL", "1 + 1", "10 / 4", "7 % 3"}
+	formats := []struct{ name, ext string }{{"CSV", "csv"}, {"TSV", "tsv"}, {"LTSV", "ltsv"}, {"FIXED", "txt"}, {"JSON", "json"}, {"JSONL", "jsonl"}}
+	type job struct {
+		v string
+		f int
+	}
+	var jobs []job
+	for _, v := range values {
+		for f := range formats {
+			jobs = append(jobs, job{v, f})
+		}
+	}
+	type res struct{ sig, what string }
+	results := make([]res, len(jobs))
+	core.Parallel(len(jobs), 8, func(k int) {
+		j := jobs[k]
+		dir := r.Dir(fmt.Sprintf("typed%d", k))
+		defer os.RemoveAll(dir)
+		f := formats[j.f]
+		sel := "SELECT " + j.v + " AS c1, 'x' AS c2"
+		ref := sut.RunBin(sut.BinOpts{Csvq: r.Csvq, Dir: dir, Args: []string{"--format", "CSV", "--without-header", "--quiet", sel}, Timeout: 30 * time.Second})
+		if ref.Exit != 0 {
+			results[k] = res{"typed:reference-error", sel + ": " + firstLine(ref.Stderr)}
+			return
+		}
+		want := strings.TrimRight(ref.Stdout, "\r\n")
+		file := "o." + f.ext
+		w := sut.RunBin(sut.BinOpts{Csvq: r.Csvq, Dir: dir, Args: []string{"--format", f.name, "--out", file, "--quiet", sel}, Timeout: 30 * time.Second})
+		if w.Exit != 0 {
+			results[k] = res{"typed:" + f.name + ":write-error", fmt.Sprintf("%s to %s fails: %s", sel, f.name, firstLine(w.Stderr))}
+			return
+		}
+		from := "`" + file + "`"
+		if f.name == "FIXED" {
+			from = "FIXED('SPACES', `" + file + "`)"
+		}
+		rd := sut.RunBin(sut.BinOpts{Csvq: r.Csvq, Dir: dir, Args: []string{"--format", "CSV", "--without-header", "--quiet", "SELECT c1, c2 FROM " + from}, Timeout: 30 * time.Second})
+		got := strings.TrimRight(rd.Stdout, "\r\n")
+		if rd.Exit != 0 {
+			results[k] = res{"typed:" + f.name + ":unreadable", fmt.Sprintf("%s written as %s cannot be read back: %s", sel, f.name, firstLine(rd.Stderr))}
+			return
+		}
+		if got != want {
+			kind := "value"
+			if _, err := strconv.ParseInt(strings.Split(want, ",")[0], 10, 64); err == nil {
+				kind = "integer"
+				if len(strings.TrimLeft(strings.Split(want, ",")[0], "-")) >= 16 {
+					kind = "integer-above-2^53"
+				}
+			}
+			if f.name == "LTSV" && strings.Contains(want, ":") && strings.ReplaceAll(want, ":", "") == got {
+				// the LTSV reader of the dependency drops colons inside values: the finding already listed for text cells
+				results[k] = res{"reader:LTSV:colon-in-value-dropped", fmt.Sprintf("%s written as LTSV reads back as %q", sel, got)}
+				return
+			}
+			results[k] = res{"typed:" + f.name + ":" + kind + "-changed", fmt.Sprintf("%s written as %s reads back as %q, csvq shows the value as %q", sel, f.name, got, want)}
+		}
+	})
+	reported := map[string]bool{}
+	for k, x := range results {
+		r.Distinct(fmt.Sprintf("typed|%s|%d", jobs[k].v, jobs[k].f))
+		if x.sig == "" || reported[x.sig] {
+			continue
+		}
+		reported[x.sig] = true
+		r.Violation(x.sig, x.what, map[string]interface{}{"value": jobs[k].v, "format": formats[jobs[k].f].name})
+	}
+	r.Coverage["typed_value_round_trips"] = len(jobs)
 }
